@@ -192,6 +192,24 @@ def post (f : Facts) : PostOut :=
     | some ⟨_, .readBody, .nil⟩ => if f.readErr then failClosed else ⟨.body, .none⟩
     | _ => failClosed
 
+/-! ### the same three helpers, written down by hand
+
+This is the reading of the helpers that the conversation model, the Spec and the driver use; that the
+source still says this is `doPost_eq`, `check_eq`, `post_eq` (Lemmas) over the interpreted tables — so a
+changed helper breaks those obligations, while the Spec keeps judging the implementation's outputs by
+this reference (status 200 and a completely read body, nothing else, is a success). -/
+
+def doPostRef (f : Facts) : PostOut := if f.doErr then ⟨.nil, .transport⟩ else ⟨.response, .none⟩
+
+def checkRef (f : Facts) : PostOut :=
+  if f.status = 200 then ⟨.nil, .none⟩
+  else if f.readErr || f.decodeErr then ⟨.nil, .generic⟩ else ⟨.errBody, .ipfs⟩
+
+def postRef (f : Facts) : PostOut :=
+  if f.doErr then ⟨.nil, .transport⟩
+  else if f.status = 200 then (if f.readErr then ⟨.nil, .read⟩ else ⟨.body, .none⟩)
+  else if f.readErr || f.decodeErr then ⟨.nil, .generic⟩ else ⟨.errBody, .ipfs⟩
+
 /-! ### what the connector can tell apart -/
 
 inductive Cls
@@ -229,7 +247,7 @@ def Beh.plain (b : Beh) : Beh :=
 def clsPost (b : Beh) : Cls :=
   if b.stalls then .stall
   else
-    match (post b.facts).err with
+    match (postRef b.facts).err with
     | .none =>
       (match b.body with
        | .expected => .honest
@@ -242,10 +260,10 @@ def clsPlain (b : Beh) : Cls := clsPost b.plain
 /-- pin/add: `doPostCtx`, `checkResponse`, then the progress stream is decoded object by object -/
 def clsAdd (b : Beh) : Cls :=
   if b.transport = .stallHeaders then .stall
-  else match (doPost b.facts).err with
+  else match (doPostRef b.facts).err with
   | .none =>
     if b.transport = .stallBody then .stall
-    else match (check b.facts).err with
+    else match (checkRef b.facts).err with
     | .none =>
       (match b.transport with
        | .cut late => if late then .lostReply else .hardFail
